@@ -37,6 +37,7 @@ import (
 	"github.com/protolambda/zrnt/eth2/configs"
 	"github.com/protolambda/zrnt/eth2/util/hashing"
 	"github.com/protolambda/ztyp/view"
+	"verif/harness/chain"
 )
 
 const farFuture = 1000000 // JSON / TLA+ image of FAR_FUTURE_EPOCH
@@ -732,6 +733,11 @@ type planItem struct {
 	Epochs   uint64    `json:"epochs"`   // chain: how many epochs to advance
 	Seed     int64     `json:"seed"`
 	Registry []valSpec `json:"registry,omitempty"` // explicit registry (replays / TLC cases); else random from Seed
+	// kind "blocks": a real, signed, block-carrying history built by harness/chain
+	Preset string  `json:"preset"` // S1..S4
+	Forks  []int64 `json:"forks"`  // altair, bellatrix, capella, deneb fork epochs (-1 never)
+	Corner string  `json:"corner"` // name of a chain.CornerScenarios() history instead of a random scenario
+	MidP   float64 `json:"mid_p"`  // probability of recording a state that is not the first of its epoch
 }
 
 func toFork(spec *common.Spec, st *phase0.BeaconStateView, fork string) (common.BeaconState, error) {
@@ -930,6 +936,185 @@ func runChain(it planItem, emit func(event) error) error {
 	return nil
 }
 
+// ---------------------------------------------------------------- block-carrying histories (harness/chain)
+
+func presetOf(spec *common.Spec) Preset {
+	return Preset{
+		SLOTS_PER_EPOCH: uint64(spec.SLOTS_PER_EPOCH), MAX_COMMITTEES_PER_SLOT: uint64(spec.MAX_COMMITTEES_PER_SLOT),
+		TARGET_COMMITTEE_SIZE: uint64(spec.TARGET_COMMITTEE_SIZE), SHUFFLE_ROUND_COUNT: uint64(spec.SHUFFLE_ROUND_COUNT),
+		MAX_EFFECTIVE_BALANCE: uint64(spec.MAX_EFFECTIVE_BALANCE), SYNC_COMMITTEE_SIZE: uint64(spec.SYNC_COMMITTEE_SIZE),
+		EPOCHS_PER_HISTORICAL_VECTOR: uint64(spec.EPOCHS_PER_HISTORICAL_VECTOR), MIN_SEED_LOOKAHEAD: uint64(spec.MIN_SEED_LOOKAHEAD),
+		EPOCHS_PER_SYNC_COMMITTEE_PERIOD: uint64(spec.EPOCHS_PER_SYNC_COMMITTEE_PERIOD),
+		MAX_SEED_LOOKAHEAD:               uint64(spec.MAX_SEED_LOOKAHEAD), EFFECTIVE_BALANCE_INCREMENT: uint64(spec.EFFECTIVE_BALANCE_INCREMENT),
+	}
+}
+
+// blockObserver records states of a chain.Chain after its steps: the first state seen in every epoch (boundary
+// "upgrade" / "rotate" when the stored sync committees were produced by the transition into that epoch; they, the
+// effective balances, the active sets and the seeds they depend on cannot change inside the epoch) and, with
+// probability MidP, later states of the epoch.
+type blockObserver struct {
+	main      *chain.Chain
+	it        planItem
+	p         Preset
+	rng       *rand.Rand
+	emit      func(event) error
+	err       error
+	dead      bool
+	first     bool
+	lastEpoch int64
+	volExits  map[int]bool
+	blocks    int
+	ops       map[string]int
+}
+
+func (o *blockObserver) boundaryEpoch(e uint64) string {
+	alt := uint64(o.main.Spec.ALTAIR_FORK_EPOCH)
+	if alt == never {
+		return ""
+	}
+	if e == alt {
+		return "upgrade"
+	}
+	if e > alt && e%o.p.EPOCHS_PER_SYNC_COMMITTEE_PERIOD == 0 {
+		return "rotate"
+	}
+	return ""
+}
+
+func (o *blockObserver) record(c *chain.Chain) {
+	if c != o.main || o.err != nil || o.dead {
+		return
+	}
+	slot := uint64(c.Slot())
+	e := slot / o.p.SLOTS_PER_EPOCH
+	boundary := ""
+	newChain := o.first
+	if int64(e) > o.lastEpoch {
+		boundary = o.boundaryEpoch(e)
+		for m := o.lastEpoch + 1; m < int64(e); m++ { // an epoch without a recorded state: its rotation was not seen
+			if o.boundaryEpoch(uint64(m)) != "" {
+				newChain = true
+			}
+		}
+	} else if o.rng.Float64() >= o.it.MidP {
+		return
+	}
+	ev, err := recordState(c.Spec, o.p, c.State, c.Epc, o.it.Chain, "blocks", boundary, newChain)
+	if err != nil {
+		o.err = err
+		return
+	}
+	o.lastEpoch = int64(e)
+	o.first = ev.Ev == "Skipped"
+	if len(activeAt(ev.Vals, e)) == 0 || len(activeAt(ev.Vals, e+1)) == 0 || len(activeAt(ev.Vals, e+2)) == 0 {
+		o.dead = true
+		return
+	}
+	if ev.Ev == "State" {
+		if ev.Note == nil {
+			ev.Note = map[string]string{}
+		}
+		vx := []int{}
+		for i := range ev.Vals {
+			if o.volExits[i] {
+				vx = append(vx, i)
+			}
+		}
+		b, _ := json.Marshal(map[string]interface{}{"preset": o.it.Preset, "corner": o.it.Corner, "vol_exits": vx,
+			"ejection_balance": uint64(c.Spec.EJECTION_BALANCE), "blocks": o.blocks, "ops": o.ops})
+		ev.Note["history"] = string(b)
+	}
+	if err := o.emit(ev); err != nil {
+		o.err = err
+	}
+}
+
+func (o *blockObserver) BeforeSlots(c *chain.Chain, to common.Slot) {}
+func (o *blockObserver) AfterSlots(c *chain.Chain, to common.Slot, err error) {
+	if err == nil {
+		o.record(c)
+	}
+}
+func (o *blockObserver) BeforeBlock(c *chain.Chain, env *common.BeaconBlockEnvelope) {}
+func (o *blockObserver) AfterBlock(c *chain.Chain, env *common.BeaconBlockEnvelope, err error) {
+	if err != nil || c != o.main {
+		return
+	}
+	ops := chain.OpsOf(env.Body)
+	for _, x := range *ops.VoluntaryExits {
+		o.volExits[int(x.Message.ValidatorIndex)] = true
+	}
+	o.blocks++
+	o.ops["exits"] += len(*ops.VoluntaryExits)
+	o.ops["deposits"] += len(*ops.Deposits)
+	o.ops["proposer_slashings"] += len(*ops.ProposerSlashings)
+	o.ops["attester_slashings"] += len(*ops.AttesterSlashings)
+	o.ops["attestations"] += len(*ops.Attestations)
+	o.record(c)
+}
+
+func runBlocks(it planItem, emit func(event) error) error {
+	rng := rand.New(rand.NewSource(it.Seed))
+	var c *chain.Chain
+	var steps []chain.StepPlan
+	var err error
+	if it.Corner != "" {
+		found := false
+		for _, ns := range chain.CornerScenarios() {
+			if ns.Name == it.Corner {
+				ns := ns
+				if c, err = ns.Build(); err != nil {
+					return err
+				}
+				steps, found = ns.Steps, true
+			}
+		}
+		if !found {
+			return fmt.Errorf("no corner scenario %q", it.Corner)
+		}
+	} else {
+		f := func(i int) common.Epoch {
+			if i >= len(it.Forks) || it.Forks[i] < 0 {
+				return chain.FarFuture
+			}
+			return common.Epoch(it.Forks[i])
+		}
+		spec := chain.NewSpec(it.Preset, chain.Forks(f(0), f(1), f(2), f(3)))
+		n := it.NVals
+		if n == 0 {
+			n = chain.DefaultValidatorCount(it.Preset)
+		}
+		// a few genesis validators below the activation balance (they enter through the queue after a top-up or stay
+		// out) and a few pending deposits, so that the registry changes for real
+		bals := make([]common.Gwei, n)
+		for i := range bals {
+			bals[i] = spec.MAX_EFFECTIVE_BALANCE
+			if i >= 4 && rng.Intn(8) == 0 {
+				bals[i] = spec.MAX_EFFECTIVE_BALANCE / 2
+			}
+		}
+		c, err = chain.NewGenesis(spec, chain.GenesisOpts{Validators: n, Balances: bals,
+			PendingDeposits: []chain.DepositSpec{{Key: chain.KeyID(n)}, {Key: chain.KeyID(n + 1)}}})
+		if err != nil {
+			return err
+		}
+		steps = chain.RandomScenario(rng, spec, chain.ScenarioOpts{Epochs: int(it.Epochs), Validators: n})
+	}
+	o := &blockObserver{main: c, it: it, p: presetOf(c.Spec), rng: rng, emit: emit, first: true, lastEpoch: -1,
+		volExits: map[int]bool{}, ops: map[string]int{}}
+	o.record(c) // genesis
+	c.Observer = o
+	_, err = c.RunScenario(steps)
+	if o.err != nil {
+		return o.err
+	}
+	if err != nil {
+		return fmt.Errorf("block-carrying chain (%s %s): %v", it.Preset, it.Corner, err)
+	}
+	return nil
+}
+
 func record(planPath, outPath string) error {
 	f, err := os.Open(planPath)
 	if err != nil {
@@ -962,6 +1147,8 @@ func record(planPath, outPath string) error {
 				return runMutated(it, emit)
 			case "chain":
 				return runChain(it, emit)
+			case "blocks":
+				return runBlocks(it, emit)
 			default:
 				return fmt.Errorf("unknown plan kind %q", it.Kind)
 			}
